@@ -57,7 +57,8 @@ def streams(seed, tier):
             cases += [mk(prof, nm, True, float=[fbits(5.0)]), mk(prof, nm, False)]
     for nm in FLT1:
         for prof in (0, 1):
-            for a in F32 + [rand_f32(rng) for _ in range(nrand)]:
+            small = [fbits(x) for x in (1e-3, 2e-3, 4e-3, -4e-3, 4.8e-3, 5e-3, 1e-2, 0.1, -0.1, 0.5, 3.1415927, 1e-4, 6e-4)]
+            for a in F32 + small + [rand_f32(rng) for _ in range(nrand)]:
                 cases.append(mk(prof, nm, prof == 0, float=[a]))
             cases.append(mk(prof, nm, False))
     for nm in INT1:
